@@ -74,6 +74,14 @@ theorem abs_v : (Num.abs F).v = |F.v| := rfl
 theorem abs_d : (Num.abs F).d = if F.v < 0 then -F.d else F.d := rfl
 theorem atan2_v : (Num.atan2 F G).v = Complex.arg ⟨G.v, F.v⟩ := rfl
 theorem atan2_d : (Num.atan2 F G).d = (G.v * F.d - F.v * G.d) / (G.v * G.v + F.v * F.v) := rfl
+theorem select_v (c : Bool) : (Num.select c F G : Dual ℝ).v = bif c then F.v else G.v := rfl
+theorem select_d (c : Bool) : (Num.select c F G : Dual ℝ).d = (bif c then 1 else 0) * F.d + (bif c then 0 else 1) * G.d := rfl
+/-- over ℝ the backward rule of `torch.where` (mask · grad of each branch, both evaluated) gives exactly the chosen branch:
+    `1 · a + 0 · b = a` has no exception in ℝ.  In IEEE arithmetic `0 · inf = NaN`, which is what `Chk` tracks. -/
+theorem select_eq_ite (p : Prop) [Decidable p] : (Num.select (decide p) F G : Dual ℝ) = if p then F else G := by
+  by_cases h : p
+  · rw [if_pos h]; cases F; cases G; simp [Num.select, h]
+  · rw [if_neg h]; cases F; cases G; simp [Num.select, h]
 theorem lt_iff : F < G ↔ F.v < G.v := Iff.rfl
 theorem le_iff : F ≤ G ↔ F.v ≤ G.v := Iff.rfl
 theorem const_v (c : ℝ) : (Dual.const c).v = c := rfl
